@@ -7,7 +7,7 @@
    against the batch index of the current labelled data with exact rational
    equality after every operation. *)
 From Coq Require Import List Bool Arith Reals.
-From ART Require Import Num NumR Vec Search Kernel BaseArt ICVI ICVI_R.
+From ART Require Import Num NumR Vec Search Kernel BaseArt ICVI ICVI_R VecR ICVI_full.
 Import ListNotations.
 Open Scope R_scope.
 
@@ -53,10 +53,28 @@ Theorem C15_cp_is_within_cluster_ss : forall xs : list R,
   fold_right (fun a acc => (a - s1 / n) * (a - s1 / n) + acc) 0 xs = s2 - s1 * s1 / n.
 Proof. exact ss_about_mean. Qed.
 
+(* FULL statement for add_sample (online mode): after ANY sequence of add_sample / update operations on samples
+   of one dimension, every operation was defined and the tracked criterion value is the batch
+   Calinski-Harabasz index of the labelled data presented so far (0 by convention while it is undefined) *)
+Theorem C15_adds_track_the_batch_index : forall (d : nat) (D : list (list R * nat)),
+  Forall (fun p => length (fst p) = d) D ->
+  exists s, fold_left add_step D (Some (@ch_init RN d)) = Some s /\
+            @batch_ch RN D d = Some (h_crit s) /\
+            h_n s = INR (length D).
+Proof. exact icvi_adds_equal_batch. Qed.
+(* one step, from any state that satisfies the invariant *)
+Theorem C15_add_sample_step : forall d (s : @ch RN) (D : list (list R * nat)) (x : list R) (l : nat),
+  Struct d s D -> length x = d ->
+  exists p, @add_sample RN s x l = Some p /\
+            Struct d (@update RN s p) (D ++ [(x, l)]) /\
+            @batch_ch RN (D ++ [(x, l)]) d = Some (h_crit (@update RN s p)).
+Proof. exact add_sample_inv. Qed.
+
 (* the gate: joining an existing cluster requires the validity test (strict improvement) to have passed *)
 Theorem C15_gate : forall (K : Kernel RN) (s : st (N:=RN)) x (improves : nat -> bool) m eps s' c vl,
   step_fit K s x (Some improves) m eps = Some (s', c, vl) -> (c < length (W s))%nat -> improves c = true.
 Proof. exact icvi_gate. Qed.
+Print Assumptions C15_adds_track_the_batch_index.
 Print Assumptions C15_cp_add_partial.
 Print Assumptions C15_gate.
 
